@@ -108,10 +108,10 @@ def Cert.auglOk (g : Grammar) : Bool :=
 
 /-- the completeness certificate for GLR tables: `Cert.complete` without "at most one action per cell", with
     the right-nulled reduce entries demanded, shifts deterministic, augmented symbols in no right-hand side, STOP
-    never shifted -/
+    never shifted, accept only on STOP -/
 def Cert.completeRN (g : Grammar) (t : Table) : Bool :=
   let c := Canon.mkCtx g
   Cert.firstOk g c && Cert.closureOk g c t && Cert.transOk g t && Cert.reduceRNOk g t c.nul &&
-  Cert.grammarOk g t && Cert.shiftDetOk t && Cert.auglOk g && Cert.noShiftStop t
+  Cert.grammarOk g t && Cert.shiftDetOk t && Cert.auglOk g && Cert.noShiftStop t && Cert.acceptStop t
 
 end Rustemo
